@@ -454,3 +454,11 @@ B('C18.base64-component-strict', ['C18'], [(P + 'common/field.py', "        retu
   "        return Base64Data(base64.b64decode(value, validate=True))")], mention=['C18.R12', 'composed'])
 N('benign.base64-component-strips-quotes', [(P + 'common/field.py', "        return Base64Data(base64.b64decode(value))",
   "        return Base64Data(base64.b64decode(value.strip('\"'), validate=True))")])
+# a separator run that is counted from each of its positions (the count is thrown away, the offset advances by one)
+B('C19.separator-run-recounted', ['C19'], [(P + 'common/parse.py',
+  "            item_offset += self._check_separators(name, item_offset, separator, 1, max_separator_count)\n",
+  "            self._check_separators(name, item_offset, separator, 1, max_separator_count)\n            item_offset += 1\n")],
+  mention=['C19.R9', 'separator-run'])
+N('benign.separator-count-named', [(P + 'common/parse.py',
+  "            item_offset += self._check_separators(name, item_offset, separator, 1, max_separator_count)\n",
+  "            separator_count = self._check_separators(name, item_offset, separator, 1, max_separator_count)\n            item_offset += separator_count\n")])
